@@ -40,7 +40,11 @@ def regex_pool(rng, nodes):
 def glob_pool(rng, nodes):
     n1 = rng.choice(nodes)
     last = n1.split(".")[-1]
-    return rng.choice([n1, "*" + last, n1 + "*", "*" + last + "*", "*" + last[:1] + "*", "r.*", "*.zz", n1[:-1] + "*"])
+    # ... and partial names whose TEXT contains characters a shell glob would read as wildcards (an inner star, ?, [..]): the
+    # documented form is [*]text[*] with the text matched character by character
+    inner_star = n1[:max(1, len(n1) // 2)] + "*" + n1[max(1, len(n1) // 2) + 1:]
+    return rng.choice([n1, "*" + last, n1 + "*", "*" + last + "*", "*" + last[:1] + "*", "r.*", "*.zz", n1[:-1] + "*",
+                       inner_star, n1[:-1] + "?", "*" + last[:-1] + "[" + last[-1] + "]", n1[:-1] + "[" + n1[-1] + "]*", "*" + last[:1] + "?" + last[2:] + "*"])
 
 
 def _job(args):
@@ -150,7 +154,11 @@ def _job(args):
                 gl_ref.append((p, nm, re.match(conv(p), nm) is not None))
     for (p, nm, ref), mo in zip(gl_ref, common.model_run(gl_in)):
         n_eval += 1
-        if bool(mo) != ref:
+        if ref != documented_partial_match(p, nm):
+            # the documented meaning of a partial name decides: this pattern / name pair is the failing input
+            viol.append((dict(partial_name=p, module=nm, library_matches=ref, documented=documented_partial_match(p, nm)),
+                         f"have_name_containing({p!r}): the library {'selects' if ref else 'does not select'} the module {nm!r}, the documented partial-name form says otherwise", {"law": "partial_name_match"}))
+        elif bool(mo) != ref:
             disag.append((dict(pattern=p, name=nm, impl=ref, model=mo), f"partial-name match differs for {p!r} on {nm!r}"))
     sample = dict(nodes=cases[0]["nodes"], edges=cases[0]["edges"], kind=cases[0]["kind"], first_spec=rules._jsonable_spec(cases[0]["specs"][0]))
     return dict(n=n_eval, nontrivial=nontriv, stats=stats, violations=viol, disagreements=disag, pairs=pairs, samples=[sample])
@@ -364,6 +372,15 @@ def replay(ctx: Ctx, path: str) -> int:
         exp = "ERR" if not matched or not plain_ok else rules.run_rule(rules.build_rule(dict(spec, **{side: ("named", matched)})), arch)[0]
         print("regex rule:", got[0], "expansion on this architecture:", exp, "matches:", matched)
         if got[0] != exp:
+            print(f"VIOLATION property=C11 replay={path}")
+            return 1
+        return 0
+    if "partial_name" in c:
+        conv = rules.partial_match_converter()
+        lib = re.match(conv(c["partial_name"]), c["module"]) is not None
+        doc = documented_partial_match(c["partial_name"], c["module"])
+        print("partial name", repr(c["partial_name"]), "module", repr(c["module"]), "library selects:", lib, "documented:", doc)
+        if lib != doc:
             print(f"VIOLATION property=C11 replay={path}")
             return 1
         return 0
